@@ -485,6 +485,7 @@ def _relocate(stmts: List[ast.stmt], call: ast.Call, counter: List[int]):
 def _inline_call(ctx, f, call: ast.Call, mode: str, used: set, skip, counter, targets=None, want=None) -> Optional[List[ast.stmt]]:
     """Statements equivalent to `helper(..)` (mode 'expr'), `<targets> = helper(..)` ('assign') or
     `return helper(..)` ('return'), or None when the helper cannot be inlined faithfully."""
+    result_assign = None
     r = _inlinable(ctx, f, call, skip, want)
     if r is None:
         return None
@@ -503,7 +504,10 @@ def _inline_call(ctx, f, call: ast.Call, mode: str, used: set, skip, counter, ta
     elif mode == "assign":
         if not (isinstance(last, ast.Return) and last.value is not None) or any(r_ is not last for r_ in all_rets):
             return None
-        body = body[:-1] + [ast.copy_location(ast.Assign(targets=copy.deepcopy(targets), value=last.value), last)]
+        # the caller's targets are attached AFTER the callee's locals are renamed / parameters substituted (a helper
+        # local may have the same name as the caller's target)
+        result_assign = ast.copy_location(ast.Assign(targets=[], value=last.value), last)
+        body = body[:-1] + [result_assign]
     else:  # 'return'
         if not isinstance(last, (ast.Return, ast.Raise)):
             body.append(ast.copy_location(ast.Return(value=ast.Constant(value=None)), last))
@@ -528,6 +532,8 @@ def _inline_call(ctx, f, call: ast.Call, mode: str, used: set, skip, counter, ta
         mod = _Rename(rename).visit(mod)
     if subst:
         mod = _Subst(subst).visit(mod)
+    if result_assign is not None:
+        result_assign.targets = copy.deepcopy(targets)
     used.update(rename.values())
     used.update(stored)
     ctx.functions_analysed.add(callee.key)
